@@ -337,15 +337,16 @@ def Eqn.treeDevs : Eqn → List Dev × Bool      -- (deviations, text ends insid
     else (l.treeDevs.1, false)
   | .bin o l r =>
     if plainOp o then
-      (addIf ((match l.opPrec? with
-               | some p => decide (p ≥ o.prec)
-               | none => false) ||
-              (match r.opPrec? with
-               | some p => decide (p ≥ o.prec) && !(match r with
-                                                     | .un ro _ => isCode ro Gen.JpOps.op_get
-                                                     | _ => false)
-               | none => false)) .equationParens
-        (addIf l.treeDevs.2 .notScope (l.treeDevs.1 ++ r.treeDevs.1)), r.treeDevs.2)
+      -- the left operand is parenthesised when its precedence number is not smaller; the right operand
+      -- gets the SAME flag: wrong whenever its own need differs (a constant or path never needs any)
+      (addIf (match r with
+              | .val _ => leftParens o l
+              | .un ro _ => !noParensCode ro && (leftParens o l != decide (ro.prec ≥ o.prec))
+              | .bin ro _ _ => !noParensCode ro && (leftParens o l != decide (ro.prec ≥ o.prec))) .equationParens
+        (addIf (l.treeDevs.2 && !leftParens o l) .notScope (l.treeDevs.1 ++ r.treeDevs.1)),
+       r.treeDevs.2 && (!leftParens o l || (match r.op? with
+                                            | some ro => noParensCode ro
+                                            | none => false)))
     else if isCode o Gen.JpOps.op_match || isCode o Gen.JpOps.op_search then
       (addIf (match r with
               | .val _ => false
